@@ -18,6 +18,8 @@ import json
 import logging
 from typing import Any, Callable
 
+import aiohttp
+
 from kv import canon, clock, coqio as cq, fakeapi as fa, framework as fw, vloop
 
 RULE_FN = ('function level: bounded-exhaustive product patch shape {body, status, both, status: None, body + status: None, fns only, all} x status subresource {yes,no} x '
@@ -195,6 +197,11 @@ class ScriptedSession:
             x.injected = self.fault[1]
             if self.fault[1] == 'empty200':
                 resp = fa.Response(200, {})
+            elif self.fault[1] == 'lost':        # the server applies the write, the response never arrives
+                resp = await self.inner.request(method, url, json=json, headers=headers, timeout=timeout)
+                x.status, x.body, x.after = resp.status, copy.deepcopy(resp._payload), self.api.get(self.kind, NS, NAME)
+                self.log.append(x)
+                raise aiohttp.ClientConnectionError('fake: the response was lost')
             else:
                 code = int(self.fault[1])
                 resp = fa.Response(code, fa.status_payload(code, 'Injected'))
@@ -961,6 +968,9 @@ def differential(ctx: fw.Ctx) -> None:
         ctx.differential('patch_obj', HEADER, cases, shard=40)
 
         apply_layer(ctx, env, seen_terms)
+
+        from kv.props import c08_carry          # the carry-over of the fns from cycle to cycle (process_resource_event)
+        c08_carry.carry_layer(ctx, env)
     finally:
         env.close()
 
@@ -968,6 +978,9 @@ def differential(ctx: fw.Ctx) -> None:
 def replay(ctx: fw.Ctx, body: dict) -> bool:
     """Re-run one function-level case (the `case` of a replay file) through the monitors."""
     ctx.matchers = dict(ctx.matchers)
+    if (body.get('case') or {}).get('fn') == 'carry':
+        from kv.props import c08_carry
+        return c08_carry.replay(ctx, body)
     desc = {k: v for k, v in (body.get('case') or {}).items() if k not in ('requests', 'outcome', 'sleeps', 'request')}
     env = Env()
     try:
